@@ -10,6 +10,7 @@
 (*     insn  [mn, form, e]          label  [name, hasBody, body]     braces [sid, body]      *)
 (*     const [name, e]              data   [w, es]                   loop   [n, sid, body]   *)
 (*     assert [aid, e, hasMsg, msg] test   [name, body]              useseg [name, body]     *)
+(*     var   [name, e]   (`.var name = e', may be assigned again)                              *)
 (*     setpc [e]   (`* = e')     import [file, sid]   (`.import * from "file"'; top level)     *)
 (*   files    sequence of [name, items]: the importable files                                 *)
 (*   expressions are Expr trees; identifier nodes carry `name' (unique per spelling) and     *)
@@ -143,6 +144,14 @@ LayStmt(s, st, sigma, active) ==
         IF v.k = "unres" THEN [st EXCEPT !.unres = TRUE]
         ELSE IF v.k # "num" THEN [st EXCEPT !.bad = TRUE]
         ELSE Define(st, s.name, v)
+    [] s.k = "var" ->
+        (* `.var name = e': a variable holds, at every point of the walk, the value assigned last before that point (it is no   *)
+        (* part of the converged table: a use in front of the first assignment is unresolved).  Bound like the loop index:      *)
+        (* position-dependent, so an assertion sees the value of its own place (its record carries idx).                        *)
+        LET v == Operand(s.e, st, sigma) IN
+        IF v.k = "unres" THEN [st EXCEPT !.unres = TRUE]
+        ELSE IF v.k # "num" THEN [st EXCEPT !.bad = TRUE]
+        ELSE [st EXCEPT !.idx = (A!Key(st.scope, <<s.name>>) :> v) @@ @]
     [] s.k = "data" -> LayData(s.es, s.w, st, sigma, active)
     [] s.k = "loop" -> LayLoop(s, 0, st, sigma, active)
     [] s.k = "assert" ->
